@@ -185,7 +185,11 @@ func c01f6GenHttpFraming() (string, error) {
 	s := "-- GENERATED by /verif/extract from " + src + " (clientStream.AppendHeaders, serverStream.endStream) — do not edit; regenerated on every check\n" +
 		"namespace MosnVerif.Gen.C01HttpFraming\n"
 	s += "/-- clientStream.AppendHeaders removes `Transfer-Encoding` from the header that is sent (Del on the working header map\n    before CopyTo, or on s.request.Header after it), as a condition over `endStream` -/\n"
-	s += "def dropsTransferEncoding (endStream : Bool) : Bool := " + expr + "\n"
+	arg := "endStream"
+	if !strings.Contains(expr, "endStream") {
+		arg = "_endStream"
+	}
+	s += "def dropsTransferEncoding (" + arg + " : Bool) : Bool := " + expr + "\n"
 	s += "/-- serverStream.endStream sets Response.SkipBody for a HEAD request -/\n"
 	s += fmt.Sprintf("def headSkipsBody : Bool := %v\n", headSkips)
 	s += footer("C01HttpFraming")
